@@ -366,6 +366,13 @@ func accessesOf(p *Prog, ms *mutationSummary, g *ssa.Global, funcs []*ssa.Functi
 						} else {
 							out = append(out, GlobalAccess{fn, ins, "sync-write", name, true})
 						}
+					} else if strings.HasPrefix(name, "(*sync.Pool).") {
+						// an object put into a process-wide pool is handed to a later call as it was left
+						if strings.HasSuffix(name, ".Put") {
+							out = append(out, GlobalAccess{fn, ins, "sync-write", name, true})
+						} else {
+							out = append(out, GlobalAccess{fn, ins, "sync-read", name, true})
+						}
 					} else if strings.HasPrefix(name, "(*sync.") {
 						out = append(out, GlobalAccess{fn, ins, "lock-op", name, locked})
 					} else {
